@@ -3,7 +3,8 @@
    by the correspondence harness); for the ALU an independent mathematical definition (Word.v, m_alu) is given and the
    interpreter's ALU (i_alu, transcribed from instructions.go + holiman/uint256) is proved equal to it on all operands. *)
 From Coq Require Import ZArith List Bool.
-From Verif Require Import EVM.Word EVM.ProofsALU EVM.Model EVM.ProofsRun EVM.GasSpec EVM.ProofsGas.
+From Verif Require Import EVM.Word EVM.ProofsALU EVM.Model EVM.ProofsRun EVM.GasSpec EVM.ProofsGas
+  EVM.RefSpec EVM.ProofsRef EVM.Journal EVM.ProofsJournal.
 Import ListNotations.
 Open Scope Z_scope.
 
@@ -99,6 +100,42 @@ Example gas_spec_nonvacuous :
   call_gas 100000 700 50000 = 50000 /\ call_gas 100000 700 99999 = callee_gas 100000 700 99999 /\ callee_gas 100000 700 99999 = 97749.
 Proof. vm_compute. repeat split; reflexivity. Qed.
 
+(* 6. an INDEPENDENT reference semantics (RefSpec.v, written from the Yellow Paper: delta/alpha, exceptional halting Z, jump
+      destinations D(c) as inductively defined instruction positions, the fee schedule by W-classes + C_mem + the SSTORE
+      schedule + EXP, the ALU by its mathematical definition, storage/refund effects extensionally) for the core fragment
+      STOP / ALU / POP / PUSH / DUP / SWAP / JUMP / JUMPI / JUMPDEST / PC / GAS / MSIZE / MLOAD / MSTORE / MSTORE8 / SLOAD / SSTORE /
+      RETURN / REVERT / invalid opcodes: every finished run of the interpreter model is a run of the reference with the same
+      result class, return data, gas left and world; the reference is silent only if the code contains an instruction
+      outside the fragment.  (Shared, not independent: opcode table, byte layout of memory words / PUSH operands, SWAP.) *)
+Theorem run_refines_reference fuel E cx s : cwf cx -> rinv s -> r_out (run fuel E cx s) <> O_fuel ->
+  exists rr, ref_run E cx s rr /\ res_matches (run fuel E cx s) rr /\ (rr = RR_outside -> leaves_fragment E cx).
+Proof. exact (ProofsRef.run_refines_reference fuel E cx s). Qed.
+
+(* the model's jump-destination analysis (a scan with a skip counter; the Go code uses a bit vector) decides exactly D(c) *)
+Theorem jumpdest_analysis_matches_spec cx d : c_codelen cx = zlen (c_code cx) -> zlen (c_code cx) < W64 -> 0 <= d ->
+  valid_jumpdest cx d = true <-> R_valid_dest (c_code cx) d.
+Proof. exact (valid_jumpdest_ref cx d). Qed.
+
+(* 7. the mechanism behind Snapshot / RevertToSnapshot as coded (Journal.v: stackedmap levels, statedb's stateRevKey entry,
+      the state's own stacked map): a failed frame — whatever it and its nested frames, failed or not, wrote — leaves both
+      stacked maps exactly as at its snapshot (plus the stateRevKey entry in the repo's old top level), hence every Get and
+      the journal of logs / transfers answer as before; and no frame ever touches the levels below its snapshot *)
+Theorem revert_to_snapshot_restores body s : d_state s <> [] -> d_repo s <> [] ->
+  run_act (A_frame body true) s = mkSdb (d_state s) (put (d_repo s) SRK (Z.of_nat (depth (d_state s)))).
+Proof. exact (proj2 (all_acts_good (A_frame body true)) body eq_refl s). Qed.
+
+Theorem frame_keeps_lower_levels a s bst brepo : above s bst brepo -> above (run_act a s) bst brepo.
+Proof. exact (proj1 (all_acts_good a) s bst brepo). Qed.
+
+Theorem failed_frame_restores_reads body s src : d_state s <> [] -> d_repo s <> [] ->
+  let s' := run_act (A_frame body true) s in
+  d_state s' = d_state s /\
+  (forall k, get src (d_state s') k = get src (d_state s) k) /\
+  journal (d_state s') = journal (d_state s) /\
+  (forall k, k <> SRK -> get src (d_repo s') k = get src (d_repo s) k) /\
+  (forall k, k <> SRK -> filter (fun e => fst e =? k) (journal (d_repo s')) = filter (fun e => fst e =? k) (journal (d_repo s))).
+Proof. exact (ProofsJournal.failed_frame_restores_reads body s src). Qed.
+
 (* ---------------------------------------------------------------- non-vacuity *)
 (* A (address 10): SSTORE(0,1); CALL B with all gas; INVALID.   B (address 11): SSTORE(1,7); STOP. *)
 Definition exA : list Z := [96;1;95;85; 95;95;95;95;95;96;11;90;241; 254].
@@ -152,6 +189,38 @@ Example fork_tables_nonvacuous :
   r_out (call_top 50 E2 false 10 0 [] 1000 (w [96; 1; 96; 1; 27; 0])) = O_ok.
 Proof. vm_compute. repeat split; reflexivity. Qed.
 
+(* a program entirely inside the fragment (SSTORE, ADD, MSTORE, a taken JUMPI over an INVALID, RETURN): the hypotheses of 6
+   hold, no byte of it decodes outside the fragment, so the reference run ends in RR_done with the model's result *)
+Definition exF : list Z := [96;7;96;1;85; 96;2;96;3;1; 95;82; 96;1;96;18;87; 254; 91; 96;31;96;1;243].
+Example refinement_nonvacuous :
+  let cx := mkCtx 10 99 0 exF (zlen exF) [] false 1 in
+  let s0 := mkSt 0 [] [] 0 100000 [] (exW exF) 0 in
+  cwf cx /\ rinv s0 /\ r_out (run 100 exE cx s0) = O_ok /\ r_data (run 100 exE cx s0) = dropz 1 (word_bytes 5) /\
+  forallb (fun b => match decode_at 3 b with Some i => in_fragment i | None => true end) (0 :: exF) = true.
+Proof.
+  cbv zeta. split. { split; vm_compute; reflexivity. }
+  split. { apply initial_rinv. vm_compute. discriminate. }
+  vm_compute. repeat split; reflexivity.
+Qed.
+
+(* the journal mechanism on a concrete history: an outer failed frame containing a successful inner frame and a failed one *)
+Example journal_nonvacuous :
+  let s := mkSdb [[(1, 10)]] [[(7, 70)]] in
+  let body := [A_state 1 11; A_repo 8 80; A_frame [A_state 2 22; A_repo 7 71] false; A_frame [A_state 1 99] true; A_state 3 33] in
+  d_state (run_act (A_frame body false) s) <> d_state s /\
+  get (fun _ => None) (d_state (run_act (A_frame body false) s)) 1 = Some 11 /\
+  d_state (run_act (A_frame body true) s) = d_state s /\
+  get (fun _ => None) (d_repo (run_act (A_frame body true) s)) 7 = Some 70.
+Proof. vm_compute. repeat split; try reflexivity. discriminate. Qed.
+
+(* STATICCALL from a non-static parent: the callee (a writer) fails with the write-protection error, the parent continues *)
+Example staticcall_nonvacuous :
+  let callerc := [95;95;95;95;96;11;90;250; 80; 96;9;95;85; 0] in       (* STATICCALL B; POP; SSTORE(0, 9) *)
+  let w := mkWorld [(10, mkAcc 0 callerc false); (11, mkAcc 0 exB false)] [] [] 0 [] [] in
+  let r := call_top 300 exE false 10 0 [] 2000000 w in
+  r_out r = O_ok /\ sload (r_world r) 11 1 = 0 /\ sload (r_world r) 10 0 = 9.
+Proof. vm_compute. repeat split; reflexivity. Qed.
+
 (* under static the same program stops at its first SSTORE with the write-protection error *)
 Example static_nonvacuous :
   r_out (call_top 200 exE true 10 0 [] 100000 (exW exA_ok)) = O_err E_write.
@@ -170,6 +239,11 @@ Print Assumptions mem_cost_monotone.
 Print Assumptions expansion_cost_additive.
 Print Assumptions call_gas_matches_spec.
 Print Assumptions call_gas_unaffordable.
+Print Assumptions run_refines_reference.
+Print Assumptions jumpdest_analysis_matches_spec.
+Print Assumptions revert_to_snapshot_restores.
+Print Assumptions frame_keeps_lower_levels.
+Print Assumptions failed_frame_restores_reads.
 Print Assumptions static_no_write.
 Print Assumptions static_frame_no_write.
 Print Assumptions staticcall_no_write.
